@@ -336,6 +336,8 @@ class CrashController:
     def before(self, env, rec):
         if not self.armed or self.fired:
             return
+        if not rec.get("mutating"):
+            return      # a kill before a non-mutating action leaves the same disk state as one before the next mutation
         if env.w.choose(2, "crash-before:%s" % rec["kind"]) == 1:
             self.fired = {"effects": env.n_effects_step, "kind": rec["kind"], "path": rec.get("path"), "torn": None, "action": rec["i"]}
             raise ProcessCrash("killed before %s" % rec["kind"])
@@ -1531,7 +1533,9 @@ def _bufread_lines(I, a, d):
             try:
                 data = op_read_all(I2, f)
             except FsErr as e:
-                state["items"] = []
+                # std::io::Lines is not fused on errors: an injected fault happens once and reading then
+                # continues; an error caused by the state of the filesystem (e.g. the path is a directory)
+                # comes back on every call
                 return ERR(io_err(e.kind, e.injected))
             state["items"] = lines_of(I2, data)
         if state["items"]:
